@@ -112,13 +112,28 @@ class Prop(BaseProp):
             pool = [[], ["-p", "Pfx"], ["-e", "e*.cmake"], ["-s", scfg], ["-p", "My Prefix"], ["-e", "a*", "-e", "b.cmake"],
                     ["-p", "P", "-s", scfg, "-e", "top.cmake"], ["-p", "x(y)"], ["-p", "$dollar"], ["-e", "*.md", "-p", "a b c"]]
             extra = pool[(idx // 8 + rng.randrange(3)) % len(pool)]
+            run_cwd = os.path.join(sb, "started_here")       # cmake (and the direct command line) run from here,
+            os.makedirs(run_cwd)                              # the driver script lives one level up
             out1 = os.path.join(sb, "out_cmake")
             out2 = os.path.join(sb, "out_cli")
+            rel_out = rng.random() < 0.35
+            if rel_out:
+                out1_arg, out2_arg = "rel_out_cmake", "rel_out_cli"
+                out1, out2 = os.path.join(run_cwd, out1_arg), os.path.join(run_cwd, out2_arg)
+                res.count("relative_output_runs")
+            else:
+                out1_arg, out2_arg = out1, out2
+            if kind in ("flat", "nested", "file") and rng.random() < 0.3:
+                # the input is reached through a symbolic link with another name
+                link = os.path.join(sb, "w", "linked_input" + (".cmake" if kind == "file" else ""))
+                os.symlink(target, link)
+                target = link
+                res.count("symlinked_inputs")
             marker = os.path.join(sb, "continued.txt")
             drv = os.path.join(sb, "driver.cmake")
             with open(drv, "w") as f:
                 f.write(f'set(CMINX_EXECUTABLE {q(shim)})\ninclude({q(os.path.join(repo_root(), "cmake", "cminx.cmake"))})\n'
-                        f'cminx_gen_rst({q(target)} {q(out1)} {" ".join(q(e) for e in extra)})\n'
+                        f'cminx_gen_rst({q(target)} {q(out1 if not rel_out else "rel_out_cmake")} {" ".join(q(e) for e in extra)})\n'
                         f'file(WRITE {q(marker)} "continued")\n')
             preexisting = rng.random() < 0.4
             if preexisting:
@@ -130,7 +145,7 @@ class Prop(BaseProp):
                 res.count("output_directory_existed_before")
             res.sig = sig_hash([kind, extra, tree.shape(), preexisting])
             res.nontrivial = kind in ("flat", "nested") or bool(extra)
-            p = subprocess.run(["cmake", "-P", drv], capture_output=True, env=env, cwd=sb, timeout=300)
+            p = subprocess.run(["cmake", "-P", drv], capture_output=True, env=env, cwd=run_cwd, timeout=300)
             res.count("cmake_runs")
             wit = {"kind": kind, "extra": extra, "driver": open(drv).read(), "cmake_rc": p.returncode,
                    "cmake_stderr": p.stderr.decode("utf-8", "replace")[-600:]}
@@ -141,7 +156,7 @@ class Prop(BaseProp):
                 for rec in raw.split("\n==\n"):
                     if rec:
                         recs.append(rec.split("\0")[:-1])
-            want = [target] + (["-r"] if os.path.isdir(target) else []) + extra + ["-o", out1]
+            want = [target] + (["-r"] if os.path.isdir(target) else []) + extra + ["-o", out1_arg]
             res.count("argv_records_checked")
             if recs != [want]:
                 cls = "argv"
@@ -151,7 +166,7 @@ class Prop(BaseProp):
                     cls = "argv:executable-not-invoked"
                 res.violate(cls, f"executable received {recs}, expected {[want]}", wit)
             # (2) differential against the direct command line
-            rc, so, se = runner.run_cli([a if a != out1 else out2 for a in want], cwd=sb, home=home)
+            rc, so, se = runner.run_cli(want[:-1] + [out2_arg], cwd=run_cwd, home=home)
             if rc != 0:
                 res.count("failure_cases")
                 if p.returncode == 0:
